@@ -6,3 +6,4 @@ CONSTANTS
   Level = 0
   MaxLen = 3
   MaxIter = 2
+  Pre = 0
